@@ -2,7 +2,7 @@
 import ast
 import functools
 
-from .. import coqrun, opir, py2gallina as pg
+from .. import symex as X, coqrun, opir, py2gallina as pg
 from ..core import Corr, Untranslatable, Violation
 
 ID = "C19"
@@ -65,81 +65,155 @@ class CgT:
         raise Untranslatable("cg: scalar expression outside subset: %s" % key[:70], getattr(node, "lineno", None), self.path)
 
 
+S = lambda n: ("sym", n)
+
+
+class CgV:
+    """Value trees (vlib/symex.py) of ConjGrad.cg over abstract vector-space operations."""
+
+    def __init__(self, leaves, path):
+        self.leaves, self.path = leaves, path
+
+    @staticmethod
+    def strip(v):
+        while v[0] == "call" and v[1][0] == "attr" and v[1][2] in ("clone", "reshape", "view", "contiguous"):
+            v = v[1][1]
+        return v
+
+    def v(self, t):
+        t = self.strip(t)
+        if t in self.leaves:
+            return self.leaves[t]
+        if t[0] == "bin" and t[1] in "+-":
+            return "(%s %s %s)" % ("vadd" if t[1] == "+" else "vsub", self.v(t[2]), self.v(t[3]))
+        if t[0] == "bin" and t[1] == "*" and S("lambd") in (t[2], t[3]):
+            return "(smul lam %s)" % self.v(t[3] if t[2] == S("lambd") else t[2])
+        if t[0] == "call":
+            f, args = t[1], t[2]
+            if f == S("complex_multiplication") and len(args) == 2:
+                return "(smul %s %s)" % (self.k(args[0]), self.v(args[1]))
+            if f == ("attr", S("self"), "B_op") and args[1:] == (S("sensitivity_map"), S("sampling_mask"), S("lambd")):
+                return "(B %s)" % self.v(args[0])
+            if f == ("attr", S("self"), "_A_star_op") and args[1:] == (S("sensitivity_map"), S("sampling_mask")):
+                return "(Astar %s)" % self.v(args[0])
+        raise Untranslatable("cg: vector expression outside subset: %s" % X.show(t)[:90], None, self.path)
+
+    def k(self, t):
+        t = self.strip(t)
+        if t in self.leaves:
+            return self.leaves[t]
+        if t[0] == "call":
+            f, args = t[1], t[2]
+            if f == S("complex_dot_product") and len(args) == 3 and args[2] == DIMS:
+                return "(dot %s %s)" % (self.v(args[0]), self.v(args[1]))
+            if f == S("complex_division") and len(args) == 2:
+                return "(sdiv %s %s)" % (self.k(args[0]), self.k(args[1]))
+        raise Untranslatable("cg: scalar expression outside subset: %s" % X.show(t)[:90], None, self.path)
+
+
+DIMS = X.parse_expr("torch.arange(1, x.ndim - 1).tolist()")
+
+
+def _with(d_, **_unused):
+    return d_
+
+
+def _assume(v, cond):
+    """v with every conditional on `cond` resolved to its then-branch."""
+    if not isinstance(v, tuple):
+        return v
+    if v and v[0] == "ife" and v[1] == cond:
+        return _assume(v[2], cond)
+    return tuple(_assume(x, cond) if isinstance(x, tuple) else x for x in v)
+
+
+def _plus(base, extra):
+    out = dict(base)
+    out.update(extra)
+    return out
+
+
 def generate(ctx):
+    """ConjGrad.cg as a state machine read off a symbolic execution (vlib/symex.py): the locals before the loop, one generic
+    iteration of the loop on unknown carried values (each way it can end: tolerance exit, or the update of the chosen
+    rule), and what is returned after the loop. The carried variables are identified by their role, not by name."""
     text, terms = opir.standard_terms(ctx)
     path = ctx.src("direct/nn/conjgradnet/conjgrad.py")
     tree, _ = pg.parse_file(path)
-    fn = pg.find_def(tree, "ConjGrad.cg", path)
-    body = pg.strip_doc(fn.body)
-    pre = {ast.unparse(s.targets[0]): s.value for s in body if isinstance(s, ast.Assign)}
-    loop = [s for s in body if isinstance(s, ast.For)]
-    if len(loop) != 1 or ast.unparse(loop[0].iter) != "range(self.num_iters)" or ast.unparse(body[-1]) != "return x":
-        raise Untranslatable("cg: loop structure outside subset", fn.lineno, path)
-    t0 = CgT({"x": "x0", "y": "y", "z": "z"}, path)
+    prim = {"B_op", "_A_star_op"}
+    hits, stopped = X.watch_calls(tree, path, "ConjGrad.cg", [], opaque=prim)
+    loops = hits["$loops"]
+    if len(loops) != 1 or loops[0]["iter"] != X.parse_expr("range(self.num_iters)"):
+        raise Untranslatable("cg: not one loop over range(self.num_iters) (%s)" % stopped, None, path)
+    L = loops[0]
+    d, before = L["depth"], L["before"]
+    strip = CgV.strip
+    # roles of the carried locals, from what they hold before the loop and how the loop uses them
+    b_val = X.parse_expr("self._A_star_op(y, sensitivity_map, sampling_mask) + lambd * z")
+    r0_val = ("bin", "-", b_val, X.parse_expr("self.B_op(x, sensitivity_map, sampling_mask, lambd)"))
+    rr0_val = ("call", S("complex_dot_product"), (r0_val, r0_val, DIMS), ())
+    carried = [n for n in L["assigned"] if n in before]
+    xs = [n for n in carried if before[n] == S("x")]
+    r_like = [n for n in carried if strip(before[n]) == r0_val]
+    rrs = [n for n in carried if strip(before[n]) == rr0_val]
+    ends = [(c, e) for kind, c, e in L["paths"] if kind == "end"]
+    breaks = [(c, e) for kind, c, e in L["paths"] if kind == "break"]
+    if len(xs) != 1 or len(r_like) != 2 or len(rrs) != 1 or not ends or len(breaks) != 1:
+        raise Untranslatable("cg: the loop does not carry exactly an iterate, a residual, a direction (both starting as b - B x0) and the squared residual norm, with one tolerance exit: %s" % carried, None, path)
+    H = lambda n: ("havoc", n, d)
+    bops = X.find_nodes(ends[0][1], lambda v: v[0] == "call" and v[1] == ("attr", S("self"), "B_op"))
+    dirs = {v[2][0][1] for v in bops if v[2][0][0] == "havoc"}
+    if len(dirs) != 1 or next(iter(dirs)) not in r_like:
+        raise Untranslatable("cg: B is not applied to one carried direction", None, path)
+    pn = next(iter(dirs))
+    rn = [n for n in r_like if n != pn][0]
+    xn, rrn = xs[0], rrs[0]
+    # the update under the default (FR) rule
+    is_fr = X.parse_expr("self.bk_update_type == 'FR'")
+    fr = [e for c, e in ends if any(cc == is_fr and pol for cc, pol in c)]
+    if not fr and len(ends) == 1:
+        # the rule is chosen inside a helper: one path whose values are conditional on it
+        fr = [{k_: _assume(v_, is_fr) for k_, v_ in ends[0][1].items()}]
+    if len(fr) != 1:
+        raise Untranslatable("cg: no single path for bk_update_type == 'FR'", None, path)
+    e = fr[0]
+    x1, p1, r1, rr1 = strip(e[xn]), strip(e[pn]), strip(e[rn]), strip(e[rrn])
+    Bp = ("call", ("attr", S("self"), "B_op"), (H(pn), S("sensitivity_map"), S("sampling_mask"), S("lambd")), ())
+    cm = lambda v: v[0] == "call" and v[1] == S("complex_multiplication") and len(v[2]) == 2
+    if not (x1[0] == "bin" and x1[1] == "+" and x1[2] == H(xn) and cm(x1[3]) and strip(x1[3][2][1]) == H(pn)):
+        raise Untranslatable("cg: the iterate is not x + a * p: %s" % X.show(x1)[:120], None, path)
+    a_val = x1[3][2][0]
+    if not (p1[0] == "bin" and p1[1] == "+" and strip(p1[2]) == r1 and cm(p1[3]) and strip(p1[3][2][1]) == H(pn)):
+        raise Untranslatable("cg: the direction is not r' + beta * p: %s" % X.show(p1)[:120], None, path)
+    beta_val = p1[3][2][0]
     out = text
     D = "Definition %s " + VPARAMS + " "
-    for nm in ("b", "rk_old", "pk", "rk_norm_sq_old"):
-        if nm not in pre:
-            raise Untranslatable("cg: initialisation of %s not found" % nm, fn.lineno, path)
-    out += D % "cg_b" + "(y z : V) : V := %s.\n" % t0.v(pre["b"])
-    t0.env["b"] = "b"
-    out += D % "cg_r0" + "(b x0 : V) : V := %s.\n" % t0.v(pre["rk_old"])
-    t0.env["rk_old"] = "r0"
-    out += D % "cg_p0" + "(r0 : V) : V := %s.\n" % t0.v(pre["pk"])
-    out += D % "cg_rr0" + "(r0 : V) : K := %s.\n" % t0.k(pre["rk_norm_sq_old"])
-    t = CgT({"x": "x", "pk": "p", "rk_old": "r", "rk_norm_sq_old": "rr"}, path)
-    seen = {}
-    for s in loop[0].body:
-        u = ast.unparse(s)
-        if isinstance(s, ast.Assign):
-            nm = ast.unparse(s.targets[0])
-            if nm == "Bpk":
-                seen["Bp"] = t.v(s.value)
-                t.env["Bpk"] = "Bp"
-            elif nm == "ak":
-                seen["a"] = t.k(s.value)
-                t.env["ak"] = "a"
-            elif nm == "x":
-                seen["x"] = t.v(s.value)
-            elif nm == "rk_new":
-                seen["r"] = t.v(s.value)
-                t.env["rk_new"] = "r'"
-            elif nm == "rk_norm_sq_new":
-                seen["rr"] = t.k(s.value)
-                t.env["rk_norm_sq_new"] = "rr'"
-            elif nm == "bk" and u == "bk = bk.reshape(shape)":
-                continue
-            elif nm == "pk":
-                t.env["bk"] = "beta"
-                seen["p"] = t.v(s.value)
-            elif nm in ("rk_norm_sq_old", "rk_old"):
-                if ast.unparse(s.value) not in ("rk_norm_sq_new.clone()", "rk_new.clone()", "rk_norm_sq_new", "rk_new"):
-                    raise Untranslatable("cg: carry-over of %s outside subset" % nm, s.lineno, path)
-            else:
-                raise Untranslatable("cg: assignment to %s outside subset" % nm, s.lineno, path)
-        elif isinstance(s, ast.If):
-            if u.startswith("if rk_norm_sq_new.abs().sqrt().mean() < self.tol:\n    break"):
-                # leaving the loop here must leave x and the residual of the same iteration behind
-                seen["exit_after"] = sorted(k for k in ("x", "r", "rr") if k in seen)
-                continue
-            if u.startswith("if self.bk_update_type == 'FR':"):
-                fr = s.body[0]
-                seen["beta_fr"] = t.k(fr.value)
-                continue
-            raise Untranslatable("cg: conditional outside subset", s.lineno, path)
-        else:
-            raise Untranslatable("cg: statement outside subset: %s" % u[:60], s.lineno, path)
-    for k in ("Bp", "a", "x", "r", "rr", "p", "beta_fr"):
-        if k not in seen:
-            raise Untranslatable("cg: update of %s not found" % k, fn.lineno, path)
-    out += D % "cg_Bp" + "(p : V) : V := %s.\n" % seen["Bp"]
-    out += D % "cg_a" + "(r Bp : V) (rr : K) : K := %s.\n" % seen["a"]
-    out += D % "cg_x" + "(x p : V) (a : K) : V := %s.\n" % seen["x"]
-    out += D % "cg_r" + "(r Bp : V) (a : K) : V := %s.\n" % seen["r"]
-    out += D % "cg_rr" + "(r' : V) : K := %s.\n" % seen["rr"]
-    out += D % "cg_beta_fr" + "(rr rr' : K) : K := %s.\n" % seen["beta_fr"]
-    out += D % "cg_p" + "(r' p : V) (beta : K) : V := %s.\n" % seen["p"]
-    out += "Definition cg_exit_after : list nat := [%s]%%nat.  (* 0 = x, 1 = r, 2 = rr updated before the tolerance exit *)\n" % "; ".join(str(v) for v in sorted({"x": 0, "r": 1, "rr": 2}[k] for k in seen.get("exit_after", [])))
+    base = {S("y"): "y", S("z"): "z", S("x"): "x0"}
+    out += D % "cg_b" + "(y z : V) : V := %s.\n" % CgV(base, path).v(b_val)
+    out += D % "cg_r0" + "(b x0 : V) : V := %s.\n" % CgV(_plus(base, {b_val: "b"}), path).v(before[rn])
+    out += D % "cg_p0" + "(r0 : V) : V := %s.\n" % CgV({r0_val: "r0"}, path).v(before[pn])
+    out += D % "cg_rr0" + "(r0 : V) : K := %s.\n" % CgV({r0_val: "r0"}, path).k(before[rrn])
+    st = {H(xn): "x", H(pn): "p", H(rn): "r", H(rrn): "rr"}
+    out += D % "cg_Bp" + "(p : V) : V := %s.\n" % CgV(st, path).v(Bp)
+    st2 = _plus(st, {Bp: "Bp"})
+    out += D % "cg_a" + "(r Bp : V) (rr : K) : K := %s.\n" % CgV(st2, path).k(a_val)
+    st3 = _plus(st2, {a_val: "a", CgV.strip(a_val): "a"})
+    out += D % "cg_x" + "(x p : V) (a : K) : V := %s.\n" % CgV(st3, path).v(x1)
+    out += D % "cg_r" + "(r Bp : V) (a : K) : V := %s.\n" % CgV(st3, path).v(r1)
+    out += D % "cg_rr" + "(r' : V) : K := %s.\n" % CgV({r1: "r'"}, path).k(rr1)
+    out += D % "cg_beta_fr" + "(rr rr' : K) : K := %s.\n" % CgV({H(rrn): "rr", rr1: "rr'"}, path).k(beta_val)
+    out += D % "cg_p" + "(r' p : V) (beta : K) : V := %s.\n" % CgV({r1: "r'", H(pn): "p", beta_val: "beta", CgV.strip(beta_val): "beta"}, path).v(p1)
+    # the tolerance exit: taken on the new squared residual norm, leaving the updated iterate behind
+    bc, be = breaks[0]
+    tol = [c for c, pol in bc if pol and c[0] == "cmp" and c[1] == "<" and c[3] == ("attr", S("self"), "tol")]
+    seen_rr = bool(tol) and bool(X.find_nodes(tol[0], lambda v: v == rr1))
+    exit_after = ([0] if strip(be[xn]) == x1 else []) + ([1, 2] if seen_rr else [])
+    out += "Definition cg_exit_after : list nat := [%s]%%nat.  (* 0 = x, 1 = r, 2 = rr updated before the tolerance exit *)\n" % "; ".join(str(v) for v in exit_after)
+    # what is returned is the iterate after the loop
+    t, _n = X.run_function(tree, path, "ConjGrad.cg", opaque=prim)
+    for conds, lf in X.leaves(X.prune_raises(X.drop_do(t))):
+        if lf != ("ret", ("after", xn, d)):
+            raise Untranslatable("cg: what is returned is not the iterate after the loop: %s" % X.show(lf[1])[:80], None, path)
     return [pg.write_gen(ctx, "C19_gen", out)]
 
 
